@@ -275,7 +275,10 @@ DECOY_CLASSES = ["line_comment", "block_comment", "doc_comment", "inner_doc", "b
                  "no_literal_kv", "after_string_ending_in_backslash", "line_comment_after_string", "block_with_quote",
                  "line_comment_bare_cr",
                  # identifiers with non-ASCII characters next to a configured name; block comments of several paragraphs
-                 "unicode_prefix_name", "unicode_suffix_name", "unicode_module_path", "block_multi_paragraph"]
+                 "unicode_prefix_name", "unicode_suffix_name", "unicode_module_path", "block_multi_paragraph",
+                 # paths that share segments with a configured multi-segment module; comments after lifetimes / loop labels
+                 "module_trailing_segments", "module_leading_segments", "line_comment_after_lifetime", "block_comment_after_label",
+                 "no_literal_kv_only", "no_literal_format_args"]
 
 
 def decoy_text(cls, marker, rnd, macros, eol):
@@ -319,6 +322,14 @@ def decoy_text(cls, marker, rnd, macros, eol):
         "line_comment_after_string": 'let s = "text"; // %s!("%s comment after a string")' % (name, marker),
         "line_comment_bare_cr": '// note\r    %s!("%s after a bare carriage return inside a line comment");' % (name, marker),
         "block_with_quote": '/* it\'s "quoted %s!("%s in block with quotes") */' % (name, marker),
+        "module_trailing_segments": ('%s::%s!("%s trailing segments of the configured module");' % ("::".join(mod.split("::")[1:]), name, marker)) if "::" in mod
+                                    else ('%s!("%s no multi-segment module in this set");' % (uncfg, marker)),
+        "module_leading_segments": ('%s::%s!("%s leading segments of the configured module");' % ("::".join(mod.split("::")[:-1]), name, marker)) if "::" in mod
+                                   else ('%s!("%s no multi-segment module in this set");' % (uncfg, marker)),
+        "line_comment_after_lifetime": 'fn svc_%s() -> &\'static str { "svc" } // can\'t use %s!("%s in a comment after a lifetime") here' % (marker.lower(), name, marker),
+        "block_comment_after_label": '\'outer: loop { break \'outer; } /* don\'t call %s::%s!("%s in a block comment after a loop label") */' % (mod, name, marker),
+        "no_literal_kv_only": '%s!(count = n_%s);' % (name, marker.lower()),
+        "no_literal_format_args": '%s!(target: "net", code = code; format_args!("%s {}", 1));' % (name, marker),
         "unicode_prefix_name": '%s%s!("%s non-ASCII letters before the name");' % (rnd.choice(["журнал", "µ", "é", "日本", "ß", "_ü"]), name, marker),
         "unicode_suffix_name": '%s%s!("%s non-ASCII letters after the name");' % (name, rnd.choice(["é", "ж", "_µ", "日"]), marker),
         "unicode_module_path": '%s::%s!("%s module path ending in a non-ASCII letter");' % (rnd.choice(["журнал", "modé", mod + "é", "crate::ü"]), name, marker),
